@@ -8,7 +8,7 @@ from param import rx
 from sx.api import assume, check, cover, untraced, pick, pickbool
 
 PROPERTY = 'C10'
-LABELS = ['C10.typed_latest', 'C10.rxgen_latest', 'C10.final_latest', 'C10.no_stale_after_newer', 'C10.plain_cancels', 'C10.rx_latest', 'C10.rx_no_stale']
+LABELS = ['C10.reeval_latest', 'C10.typed_latest', 'C10.rxgen_latest', 'C10.final_latest', 'C10.no_stale_after_newer', 'C10.plain_cancels', 'C10.rx_latest', 'C10.rx_no_stale']
 EXPLANATION = ("Harness c10.prog: N<=3 assignments to an allow_refs parameter, each a coroutine function, a two-value async "
                "generator or a plain value (symbolic kinds, the same function object may be assigned twice), the pending hand-made "
                "futures are then resolved in a solver-chosen order; harness c10.rxprog: an rx pipeline through a coroutine with 2-3 "
@@ -181,6 +181,67 @@ def typed(o1: int, o2: int, o3: int, o4: int, o5: int, c1: int, c2: int, c3: int
 typed.ranges = lambda consts: dict(o1=(0, 2), o2=(0, 3), o3=(0, 3), o4=(0, 3), o5=(0, 3), c1=(0, 2), c2=(0, 2), c3=(0, 2), c4=(0, 2), c5=(0, 2))
 
 
+class Src(param.Parameterized):
+    v = param.Integer(default=0)
+
+
+def deprog(nup: int, plain: bool, c1: int, c2: int, c3: int) -> None:
+    """An async reference with a dependency: x = coroutine function depending on src.v; every source update re-evaluates it
+    (a new awaitable per evaluation); optionally a plain value is assigned last; completions in a solver-chosen order."""
+    nup = pick(nup, 0, 2)
+    plain = pickbool(plain)
+    with untraced():
+        p = P()
+        src = Src()
+
+    async def main():
+        loop = asyncio.get_running_loop()
+        futs = []
+
+        @param.depends(src.param.v)
+        async def f(v):
+            fu = loop.create_future()
+            futs.append((v, fu))
+            return await fu
+        p.x = f
+        for _ in range(4):
+            await asyncio.sleep(0)
+        for j in range(nup):
+            src.v = j + 1
+            for _ in range(4):
+                await asyncio.sleep(0)
+        if plain:
+            p.x = 'plain'
+            for _ in range(4):
+                await asyncio.sleep(0)
+        for c in (c1, c2, c3):
+            pend = [t for t in futs if not t[1].done()]
+            if not pend:
+                break
+            assume(0 <= c < len(pend))
+            c = pick(c, 0, len(pend) - 1)
+            v, fu = pend[c]
+            fu.set_result(('res', v))
+            for _ in range(5):
+                await asyncio.sleep(0)
+        assume(all(fu.done() for _, fu in futs))
+        for _ in range(5):
+            await asyncio.sleep(0)
+    loop = asyncio.new_event_loop()
+    try:
+        loop.run_until_complete(main())
+    finally:
+        loop.close()
+    info = {'source_updates': nup, 'plain_last': plain, 'x': repr(p.x)}
+    if plain:
+        check('C10.reeval_latest', p.x == 'plain', info)
+    else:
+        check('C10.reeval_latest', p.x == ('res', nup), info)
+
+
+deprog.ranges = lambda consts: dict(nup=(0, 2), c1=(0, 2), c2=(0, 2), c3=(0, 2))
+
+
 def rxgen(c1: int, c2: int, c3: int) -> None:
     """rx pipeline through an async generator (two items per input); a newer input arrives while the old generator is
     suspended before its second item; the remaining three items arrive in a solver-chosen order."""
@@ -307,6 +368,8 @@ def shards(tier):
         for o2 in range(4):
             out.append(dict(name='typed_%d%d' % (o1, o2), module='harness.c10', fn='typed', consts=dict(o1=o1, o2=o2, c1=0),
                             budget_s=60 if q else 300))
+    for plain in (False, True):
+        out.append(dict(name='deprog_%d' % plain, module='harness.c10', fn='deprog', consts=dict(plain=plain), budget_s=60 if q else 300))
     out.append(dict(name='rxgen', module='harness.c10', fn='rxgen', consts={}, budget_s=60 if q else 300))
     for n in (2, 3):
         out.append(dict(name='rx_n%d' % n, module='harness.c10', fn='rxprog', consts=dict(n=n), budget_s=60 if q else 300))
